@@ -27,7 +27,7 @@ from antlr4 import InputStream, CommonTokenStream
 
 from explorerscript.antlr.SsbScriptLexer import SsbScriptLexer
 from explorerscript.antlr.SsbScriptParser import SsbScriptParser
-from explorerscript.error import ParseError
+from explorerscript.error import ParseError, SsbCompilerError
 from explorerscript.source_map import SourceMap
 from explorerscript.ssb_converting.compiler.label_jump_to_remover import OpsLabelJumpToRemover
 from explorerscript.ssb_converting.ssb_data_types import SsbOperation, SsbRoutineInfo
@@ -105,6 +105,11 @@ class SsbScriptSsbCompiler:
             # We only return the first error, the rest is probably not relevant, since
             # the first screws everything over.
             raise ParseError(error_listener.syntax_errors[0])
+
+        if None in compiler_listener.routine_infos:
+            # (An id that is skipped leaves an entry without routine info in the tables; nothing can be done with that.)
+            missing = compiler_listener.routine_infos.index(None)  # type: ignore
+            raise SsbCompilerError(f"Routine ids must be consecutive, there is no routine with the id {missing}.")
 
         # Copy from listener / remove labels and label jumps
         self.routine_ops = OpsLabelJumpToRemover(
